@@ -144,10 +144,11 @@ def run_project_check(prop, tier):
     for r in results.values():
         if "harness_error" in r:
             raise HarnessError("task %s: %s" % (r["tid"], r["harness_error"]))
+    nondet = []
     for p in probes:
         a, b = results.get(p["tid"]), results.get(p["tid"][1:])
         if a is not None and b is not None and a["digest"] != b["digest"]:
-            raise HarnessError("nondeterministic execution: task %s digests differ between two runs" % p["tid"][1:])
+            nondet.append("task %s gave different history digests in two executions" % p["tid"][1:])
     stats = {}
     mine, other = [], 0
     nruns = 0
@@ -213,6 +214,13 @@ def run_project_check(prop, tier):
     if len(new) > max_report:
         lines.append("  (%d further distinct violation signatures not minimised; rerun after fixing the above)" % (len(new) - max_report))
         nviol += len(new) - max_report
+    if stats.get("twin_nondeterministic"):
+        nondet.append("%d operation(s) behaved differently when executed twice on the same project in one process" % stats["twin_nondeterministic"])
+    if nondet and not nviol:
+        # state that outlives an operation makes the twin oracle meaningless: never report such a batch as a pass
+        raise HarnessError("nondeterministic execution (state leaks between operations of one process?): " + "; ".join(nondet))
+    for msg in nondet:
+        lines.append("NOTE: %s (violations above were each confirmed by replaying them in a fresh interpreter)" % msg)
     fid = None
     if prop == "C20":
         # fidelity tier: the in-process kill model against real SIGKILL of real child interpreters (DESIGN §2.2, §11.7)
